@@ -70,6 +70,7 @@ class Env:
         self.notes = []
         self.max_witness_tries = 40
         self.roundoff = 0
+        self.indicator_branch = None   # 0/1: obligations are stated on the branch where every mask indicator has this value
         if self.sym:
             self.xp = npshim.make(True)
             self.pi = self.xp.pi
@@ -199,6 +200,8 @@ class Env:
                 l, r = L[idx], R[idx]
                 l = l if isinstance(l, RF) else RF.const(S._tofrac(l))
                 d = l - r
+                if self.indicator_branch is not None and d.p:
+                    d = S.subs_indicators(d, self.indicator_branch)
                 if d.p:
                     d = self._drop_roundoff(d, l, r)
                 if self._decide_zero(o, idx, d):
@@ -259,7 +262,14 @@ class Env:
 
     def find_witness(self, d, tries=None, want=lambda v, s: abs(v) > 1e-7 * (1 + s)):
         """numeric point where term d is non-zero: returns ({var name: value}, value) or None"""
-        vars_ = sorted(S.term_deps(d))
+        vs = set(S.term_deps(d))
+        for c, b in self.path_conds:
+            if isinstance(c, S.SymBool):
+                vs |= S.term_deps(c.val)
+            elif isinstance(c, tuple) and c and c[0] == 'argmax':
+                for x in c[2]:
+                    vs |= S.term_deps(x)
+        vars_ = sorted(vs)
         rng = random.Random(_stable_seed(self.seed, "w", len(d.p)))
         for t in range(tries or self.max_witness_tries):
             env = {}
@@ -630,3 +640,102 @@ def crosscheck(env, jb, kw, seed):
         if not done:
             skipped.append(h.fq)
     return dict(ok=True, checked=checked, worst_rel_err=worst, skipped=skipped)
+
+
+# ----------------------------------------------------------------------------------------------------------------
+# implicit components
+
+class _Vec(dict):
+    pass
+
+
+def _h_residual(self, ins, outs):
+    """run the real apply_nonlinear; returns {name: residual array}"""
+    self.env.functions.add("%s.apply_nonlinear" % self.fq)
+    if self.env.sym:
+        self._convert_attrs()
+        vec = self._symvec(ins)
+        ov = sx.SymVec()
+        for n in self.out_names:
+            ov.init(n, np.array(S.lift(np.asarray(outs[n], dtype=object)), dtype=object).reshape(self.shape[n]).view(S.SymArray))
+        res = self.csx.apply_nonlinear(vec, ov)
+        return dict(res)
+    vals = sx._NativeVec({n: np.array(np.broadcast_to(np.asarray(ins[n], dtype=float), self.shape[n])) for n in self.in_names})
+    ov = sx._NativeVec({n: np.array(np.broadcast_to(np.asarray(outs[n], dtype=float), self.shape[n])) for n in self.out_names})
+    res = sx._NativeVec({n: np.zeros(self.shape[n]) for n in self.out_names})
+    self.comp.apply_nonlinear(vals, ov, res)
+    return dict(res)
+
+
+def _h_linearize(self, ins, outs, prev=None):
+    self.env.functions.add("%s.linearize" % self.fq)
+    if self.env.sym:
+        self._convert_attrs()
+        vec = self._symvec(ins)
+        ov = sx.SymVec()
+        for n in self.out_names:
+            ov.init(n, np.array(S.lift(np.asarray(outs[n], dtype=object)), dtype=object).reshape(self.shape[n]).view(S.SymArray))
+        return self.csx.linearize(vec, ov, prev)
+    vals = sx._NativeVec({n: np.array(np.broadcast_to(np.asarray(ins[n], dtype=float), self.shape[n])) for n in self.in_names})
+    ov = sx._NativeVec({n: np.array(np.broadcast_to(np.asarray(outs[n], dtype=float), self.shape[n])) for n in self.out_names})
+    jac = prev if prev is not None else sx._NativeJac(self.jinfo)
+    self.comp.linearize(vals, ov, jac)
+    return jac
+
+
+def _h_solve_nonlinear(self, ins):
+    """run the real solve_nonlinear; sym: outputs are the fresh unknowns of the solve contract stub"""
+    self.env.functions.add("%s.solve_nonlinear" % self.fq)
+    if self.env.sym:
+        self._convert_attrs()
+        vec = self._symvec(ins)
+        ov = self.csx.out_container()
+        vec.read_only = True
+        try:
+            with sx.patched():
+                self.comp.solve_nonlinear(vec, ov)
+        finally:
+            vec.read_only = False
+        return dict(ov)
+    vals = sx._NativeVec({n: np.array(np.broadcast_to(np.asarray(ins[n], dtype=float), self.shape[n])) for n in self.in_names})
+    ov = sx._NativeVec({n: np.array(np.broadcast_to(self.csx.default[n], self.shape[n]), dtype=float) for n in self.out_names})
+    self.comp.solve_nonlinear(vals, ov)
+    return dict(ov)
+
+
+def _h_solve_linear(self, d_outputs, d_residuals, mode):
+    """run the real solve_linear on the given d_outputs / d_residuals dicts (the one being solved for is overwritten)"""
+    self.env.functions.add("%s.solve_linear" % self.fq)
+    if self.env.sym:
+        do = sx.SymVec()
+        dr = sx.SymVec()
+        for n in self.out_names:
+            do.init(n, np.array(S.lift(np.asarray(d_outputs[n], dtype=object)), dtype=object).reshape(self.shape[n]).view(S.SymArray))
+            dr.init(n, np.array(S.lift(np.asarray(d_residuals[n], dtype=object)), dtype=object).reshape(self.shape[n]).view(S.SymArray))
+        with sx.patched():
+            self.comp.solve_linear(do, dr, mode)
+        return dict(do), dict(dr)
+    do = sx._NativeVec({n: np.array(np.broadcast_to(np.asarray(d_outputs[n], dtype=float), self.shape[n])) for n in self.out_names})
+    dr = sx._NativeVec({n: np.array(np.broadcast_to(np.asarray(d_residuals[n], dtype=float), self.shape[n])) for n in self.out_names})
+    self.comp.solve_linear(do, dr, mode)
+    return dict(do), dict(dr)
+
+
+def _h_true_jac_res(self, ins, outs, res, of, wrt):
+    if self.env.sym:
+        src = ins if wrt in self.in_names else outs
+        return self.env.jac_of(res[of], src[wrt])
+    x0 = np.array(np.broadcast_to(np.asarray((ins if wrt in self.in_names else outs)[wrt], dtype=float), self.shape[wrt]))
+
+    def f(x):
+        i2, o2 = dict(ins), dict(outs)
+        (i2 if wrt in self.in_names else o2)[wrt] = x.reshape(self.shape[wrt])
+        return self.residual(i2, o2)[of]
+    return self.env.fd_jac(f, x0)
+
+
+Handle.residual = _h_residual
+Handle.linearize = _h_linearize
+Handle.solve_nonlinear = _h_solve_nonlinear
+Handle.solve_linear = _h_solve_linear
+Handle.true_jac_res = _h_true_jac_res
